@@ -83,6 +83,32 @@ def check_case(ctx, case):
 def run_shard(ctx, shard):
     rng = rng_for(ctx.seed, ID, shard['name'])
     circles = ctx.extra['circles']
+    if shard['name'] == 'pairs-0':
+        whole = [rows for name, rows in gen.bundled_whole() if name != 'long.bob']
+        for i in range(len(whole)):
+            a, b = whole[i], whole[(i + 1) % len(whole)]
+            ctx.run_case({'parts': [a, b], 'horizontal': i % 2 == 0, 'gaps': [1 + i % 3]})
+            ctx.tag('bundled_documents')
+    if shard.get('edges'):
+        # parts whose right-most / bottom-most occupied cells line up, with double-width characters at the edge
+        for i in range(shard['n']):
+            c = rng.randint(0, 9)
+            parts = []
+            for _ in range(rng.choice([2, 2, 3])):
+                h = rng.randint(1, 3)
+                rows = []
+                for y in range(h):
+                    row = ''.join(rng.choice("ab-|+ ") for _ in range(c))
+                    if y == rng.randrange(h) or rng.random() < 0.5:
+                        row += rng.choice(['日', '字', 'a', '-', '|', '>', '+', 'ｗ'])
+                    rows.append(row.rstrip() or rng.choice('a+'))
+                parts.append(rows)
+            case = {'parts': parts, 'horizontal': rng.random() < 0.3, 'gaps': [rng.randint(1, 3) for _ in range(len(parts) - 1)]}
+            ctx.run_case(case)
+            ctx.tag('edge_aligned_compositions')
+            if i == 0:
+                ctx.sample(case)
+        return
     for i in range(shard['n']):
         k = 3 if rng.random() < 0.2 else 2
         parts = []
@@ -102,6 +128,7 @@ def execute(run):
     extra = {'circles': info['circles']}
     n = 2000 if run.tier == 'quick' else 7000
     shards = [{'name': 'pairs-%d' % i, 'n': n} for i in range(16 if run.tier == 'quick' else 32)]
+    shards += [{'name': 'edges-%d' % i, 'n': n // 4, 'edges': True} for i in range(4 if run.tier == 'quick' else 8)]
     run.run_shards(binary, shards, extra=extra)
 
 
